@@ -1,4 +1,4 @@
-package c01
+package c05
 
 import (
 	"errors"
@@ -14,7 +14,7 @@ import (
 	"verif/harness/kit"
 )
 
-var recMeta = kit.NewRecorder("C01", "meta",
+var recMeta = kit.NewRecorder("C05", "meta",
 	"a meta-process (mailbox unbounded or 1..3) spawned by an actor; 2-4 agents x 1-3 ops from {send by alias, call by alias, inspect, exit signal to the meta-process, Start() returns (nil or error), stop message, panicking message, parent is killed}; with the controlled scheduler over meta.* yield points or free-running; handlers spin 0-30us; "+
 		"oracle: entry/exit counter over Init/HandleMessage/HandleCall/HandleInspect/Terminate never exceeds 1 (Start is the meta-process's own loop and excluded), Terminate runs at most once and nothing runs after it; "+
 		"non-trivial = a termination cause was issued while >= 1 other op was in flight; distinct by script (+trace)")
